@@ -4,6 +4,7 @@ go 1.23.0
 
 require (
 	github.com/a-h/templ v0.0.0
+	github.com/andybalholm/brotli v1.1.0
 	golang.org/x/net v0.37.0
 	golang.org/x/tools v0.24.0
 )
